@@ -47,6 +47,8 @@ def fam(origin):
         f["lower"] = [(n, x) for n in ("gt", "ge") for x in b]
         f["upper"] = [(n, x) for n in ("lt", "le") for x in b]
         f["multiple_of"] = [("multiple_of", x) for x in (["1", "2", "3", "10"] if origin != "float" else ["0.5", "0.25", "2", "3"])]
+        if origin == "Decimal":
+            f["multiple_of"] += [("multiple_of", "0.5"), ("multiple_of", "0.25")]      # a float bound on a Decimal rule
         f["max_digits"] = [("max_digits", str(i)) for i in (1, 2, 3, 4)]
         if origin != "int":
             f["decimal_places"] = [("decimal_places", str(i)) for i in (0, 1, 2, 3)]
